@@ -1,14 +1,15 @@
 (* C03 — Quota admission never lets usage pass the quota's limit.  Exported theorems only. *)
 From Coq Require Import List ZArith Bool.
 From Verif Require Import C02.Model C03.Model C03.Spec C03.Codec C03.Entry C03.Proofs C03.Proofs_Runtime
-     C03.Proofs_Inv C03.Proofs_Step C03.Proofs_Check C03.Proofs_Sound C03.Proofs_Hist C03.Proofs_Codec.
+     C03.Proofs_Inv C03.Proofs_Flight C03.Proofs_Step C03.Proofs_Check C03.Proofs_Sound C03.Proofs_Hist C03.Proofs_NP C03.Proofs_Codec.
 Import ListNotations.
 Open Scope Z_scope.
 
 (* 1. A pod is admitted only if usage + request stays within the limit in force (runtime quota, or
       max when runtime quota is off) in every dimension its quota declares; a non-preemptible pod
       only if non-preemptible usage + request stays within min; and, when parent checking is on,
-      within every ancestor's limit in the dimensions the pod requests.  Any state, any switches. *)
+      within every ancestor's limit in the dimensions (keys) the pod's request carries.  Any state,
+      any switches. *)
 Theorem c03_admit_sound : forall cfg st p q anc,
   admission cfg st p (q :: anc) = 0 ->
   admissible (chk_parent cfg) p q anc (limit_of cfg st).
@@ -21,7 +22,8 @@ Theorem c03_reject_complete : forall cfg st p q anc,
   let mreq := vmask (q_decl q) (p_req p) in
   exceeds_self q (limit_of cfg st q) mreq
   \/ (p_np p = true /\ exceeds_np q mreq)
-  \/ (chk_parent cfg = true /\ exists a, In a anc /\ exceeds_anc a (limit_of cfg st a) mreq).
+  \/ (chk_parent cfg = true
+      /\ exists a, In a anc /\ exceeds_anc a (limit_of cfg st a) (req_keys q p) mreq).
 Proof. exact admission_reject_witness. Qed.
 Print Assumptions c03_reject_complete.
 
@@ -45,14 +47,16 @@ Proof. exact limit_le_max_hist. Qed.
 Print Assumptions c03_limit_le_max.
 
 (* 4. Hence: after any history of quota creations/updates, pending-pod arrivals, scheduling attempts
-      (admission check + reserve), unreserves, pod deletions and capacity changes, in any order,
-      with well-formed objects ([wf_hist]: quota objects the webhook accepts, non-negative
-      requests) and in which no max is lowered and no already-bound pod is replayed ([benign]),
+      (PreFilter + Reserve, atomically or as two operations with any informer events in between),
+      unreserves, pod deletions and capacity changes, in any order, with well-formed operations
+      ([wf_hist]: quota objects the webhook accepts, non-negative requests, and a bare Reserve only
+      for the pod whose PreFilter was the last admission decision) and in which no max is lowered
+      and no already-bound pod is replayed ([benign]),
       every quota shows used <= max in every dimension it declares — for every quota when parent
       checking is on, for every quota without child quotas when it is off.  All four switch
       combinations ([cfg] is universally quantified). *)
 Theorem c03_used_le_max : forall cfg ops,
-  wf_hist cfg init_state ops = true -> benign cfg init_state ops = true ->
+  wf_hist cfg init_state None ops = true -> benign cfg init_state ops = true ->
   forall q, In q (quotas (exec cfg init_state ops)) ->
     (chk_parent cfg = true
      \/ forall c, In c (quotas (exec cfg init_state ops)) -> q_parent c <> q_id q) ->
@@ -65,16 +69,21 @@ Print Assumptions c03_used_le_max.
        never lowered, no bound pod was replayed below it, and it has no child quota while parent
        checking is off — is within max. *)
 Theorem c03_used_le_max_per_quota : forall cfg ops,
-  wf_hist cfg init_state ops = true ->
+  wf_hist cfg init_state None ops = true ->
   forall q, In q (quotas (exec cfg init_state ops)) -> q_taint q = false ->
             used_le_max q (q_used q).
 Proof. exact used_le_max_flag. Qed.
 Print Assumptions c03_used_le_max_per_quota.
 
-(* 5. The invariant behind 3 and 4 is kept by every single operation in every state. *)
-Theorem c03_step_invariant : forall cfg wf st o,
-  INV cfg wf st -> INV cfg (wf && op_okb st o) (fst (step cfg st o)).
-Proof. exact INV_step. Qed.
+(* 5. The invariant behind 3 and 4 is kept by every single operation in every state; [FL] is the
+      part about an admission check whose Reserve is still to come: whatever informer events
+      happen in between, charging the pod afterwards keeps every quota the check covered within
+      its max. *)
+Theorem c03_step_invariant : forall cfg wf st sn o,
+  INV cfg wf st -> FL wf st sn ->
+  INV cfg (wf && op_okb st sn o) (fst (step cfg st o))
+  /\ FL (wf && op_okb st sn o) (fst (step cfg st o)) (track cfg st sn o).
+Proof. intros cfg wf st sn o I F. split; [exact (INV_step cfg wf st sn o I F)|exact (FL_step cfg wf st sn o I F)]. Qed.
 Print Assumptions c03_step_invariant.
 
 (* 6. The decision procedure that bin/check runs on the IMPLEMENTATION's observations accepts
@@ -84,36 +93,63 @@ Theorem c03_check_accepts_model : forall cfg ops,
 Proof. exact prop_code_run. Qed.
 Print Assumptions c03_check_accepts_model.
 
-(* ... also end to end over the flat-integer wire format, for every input whatsoever *)
-Theorem c03_wire_end_to_end : forall inp, prop_case inp (run_case inp) = 0.
+(* ... also end to end over the flat-integer wire format, for every input whatsoever: the full
+   decision procedure (clauses 1,2,4,5 and then 3) answers 0, or 3 (the known finding below) *)
+Theorem c03_wire_end_to_end : forall inp,
+  prop_case inp (run_case inp) = 0 \/ prop_case inp (run_case inp) = 3.
 Proof. exact prop_case_run_case. Qed.
 Print Assumptions c03_wire_end_to_end.
 
+Theorem c03_wire_end_to_end_complete_min : forall inp,
+  mc_hist (fst (decode inp)) init_state (snd (decode inp)) = true ->
+  prop_case inp (run_case inp) = 0.
+Proof. exact prop_case_run_case_mc. Qed.
+Print Assumptions c03_wire_end_to_end_complete_min.
+
 (* 7. ... and what it accepts satisfies the Props of Spec.v (soundness of the decision procedure). *)
 Theorem c03_check_sound : forall cfg ops os,
-  prop_code cfg ops os = 0 -> holds cfg true init_state [] ops os.
+  prop_code cfg ops os = 0 -> holds cfg true init_state None [] ops os.
 Proof. exact prop_code_sound. Qed.
 Print Assumptions c03_check_sound.
+
+(* 8. The non-preemptible clause read strictly (a dimension the quota declares but min does not
+      mention guarantees nothing, min = 0): holds when min has an entry for every key of max ... *)
+Theorem c03_np_within_min_partial : forall cfg st p q anc,
+  admission cfg st p (q :: anc) = 0 -> p_np p = true -> min_complete q = true ->
+  np_strict q (vmask (q_decl q) (p_req p)).
+Proof. exact admit_np_strict_partial. Qed.
+Print Assumptions c03_np_within_min_partial.
+
+(* ... and is FALSE of the faithful model (and of the code: corpus/C03/history/np-min-absent.case)
+   otherwise: a webhook-valid quota, a non-preemptible pod admitted beyond min *)
+Theorem c03_np_within_min_refuted :
+  exists cfg st p q anc,
+    admission cfg st p (q :: anc) = 0 /\ p_np p = true /\ quota_okb q = true
+    /\ ~ np_strict q (vmask (q_decl q) (p_req p)).
+Proof. exact admit_np_strict_refuted. Qed.
+Print Assumptions c03_np_within_min_refuted.
 
 (* ---------- non-vacuity ---------- *)
 Definition v3 (a b c : Z) : vec := mkVec a b c.
 Definition cm : mask := mkMask true true false.
+Definition am : mask := mkMask true true true.
 (* a parent with two children, pending pods, attempts (admitted and rejected), roll-back,
-   deletion, a max raise and a capacity change *)
+   a PreFilter whose Reserve comes three events later, deletion, a max raise, capacity changes *)
 Definition ex_hist : list op :=
   [ OCapacity (v3 20 40 0);
     OQuotaAdd 1 0 true cm (v3 10 20 0) cm (v3 4 8 0) (v3 0 0 0);
     OQuotaAdd 2 1 true cm (v3 6 20 0) cm (v3 2 4 0) (v3 0 0 0);
     OQuotaAdd 3 1 false cm (v3 8 10 0) cm (v3 2 4 0) (v3 1 1 0);
-    OPodAdd 1 2 false (v3 4 5 7); OPodAdd 2 2 false (v3 3 5 0); OPodAdd 3 3 true (v3 2 2 0);
-    OPodAdd 4 3 true (v3 1 3 0);
+    OPodAdd 1 2 false (v3 4 5 7) am; OPodAdd 2 2 false (v3 3 5 0) cm; OPodAdd 3 3 true (v3 2 2 0) cm;
+    OPodAdd 4 3 true (v3 1 3 0) cm;
     OAttempt 1; OAttempt 2; OAttempt 3; OAttempt 4;
-    OUnreserve 1; OAttempt 2; OPodDelete 2;
+    OUnreserve 1; OCheck 2; OPodAdd 5 3 false (v3 1 0 0) cm; OCapacity (v3 30 40 0); OReserve 2;
+    OPodDelete 2;
     OQuotaUpdate 2 (v3 9 20 0) cm (v3 2 4 0) (v3 0 0 0);
     OCapacity (v3 5 9 0); OAttempt 1; OAttempt 4 ].
 
 Example ex_hist_wf : forall rt chk,
-  wf_hist (mkConfig rt chk) init_state ex_hist = true
+  wf_hist (mkConfig rt chk) init_state None ex_hist = true
   /\ benign (mkConfig rt chk) init_state ex_hist = true.
 Proof. intros [|] [|]; vm_compute; split; reflexivity. Qed.
 
@@ -130,7 +166,7 @@ Proof. vm_compute. reflexivity. Qed.
 Example ex_bound_pod_bypasses_admission :
   let st := exec (mkConfig false true) init_state
                  [OQuotaAdd 1 0 true cm (v3 4 4 0) cm (v3 0 0 0) (v3 0 0 0);
-                  OPodAddBound 1 1 false (v3 9 1 0)] in
+                  OPodAddBound 1 1 false (v3 9 1 0) cm] in
   map (fun q => (q_used q, q_max q, q_taint q)) (quotas st) = [(v3 9 1 0, v3 4 4 0, true)].
 Proof. vm_compute. reflexivity. Qed.
 
@@ -140,7 +176,7 @@ Example ex_parent_passes_max_without_check :
                  [OQuotaAdd 1 0 true cm (v3 4 4 0) cm (v3 0 0 0) (v3 0 0 0);
                   OQuotaAdd 2 1 true cm (v3 4 4 0) cm (v3 0 0 0) (v3 0 0 0);
                   OQuotaAdd 3 1 true cm (v3 4 4 0) cm (v3 0 0 0) (v3 0 0 0);
-                  OPodAdd 1 2 false (v3 3 1 0); OPodAdd 2 3 false (v3 3 1 0);
+                  OPodAdd 1 2 false (v3 3 1 0) cm; OPodAdd 2 3 false (v3 3 1 0) cm;
                   OAttempt 1; OAttempt 2] in
   map (fun q => (q_id q, q_used q, q_taint q)) (quotas st)
   = [(1, v3 6 2 0, true); (2, v3 3 1 0, false); (3, v3 3 1 0, false)].
